@@ -2,17 +2,24 @@
 
 package txpool
 
-import "github.com/oasisprotocol/oasis-core/go/common/crypto/hash"
+import (
+	"github.com/oasisprotocol/oasis-core/go/common/crypto/hash"
+	"github.com/oasisprotocol/oasis-core/go/runtime/host/protocol"
+)
 
 // VerifScheduler forwards to the package-private main queue scheduler so that
 // the /verif harness can drive it.  Forwarding wrappers only.
-type VerifScheduler struct{ s *mainQueueScheduler }
+type VerifScheduler struct {
+	s *mainQueueScheduler
+	q *mainQueue // the queue that owns s: transactions are added through its Add, as the pool does
+}
 
 // VerifTx is an opaque handle for a main queue transaction.
 type VerifTx struct{ t *mainQueueTransaction }
 
 func VerifNewScheduler(capacity int) *VerifScheduler {
-	return &VerifScheduler{s: newMainQueueScheduler(capacity)}
+	q := newMainQueue(capacity)
+	return &VerifScheduler{s: q.scheduler, q: q}
 }
 
 func VerifNewTx(raw []byte, sender string, seq, priority uint64) *VerifTx {
@@ -23,6 +30,11 @@ func VerifNewTx(raw []byte, sender string, seq, priority uint64) *VerifTx {
 func (t *VerifTx) Hash() hash.Hash { return t.t.meta.hash }
 
 func (v *VerifScheduler) Add(t *VerifTx, seq uint64) error { return v.s.add(t.t, seq) }
+
+// QueueAdd adds the transaction the way the pool does: through mainQueue.Add with the check-tx metadata.
+func (v *VerifScheduler) QueueAdd(t *VerifTx, stateSeq uint64) error {
+	return v.q.Add(t.t.meta, &protocol.CheckTxMetadata{Priority: t.t.priority, Sender: []byte(t.t.sender), SenderSeq: t.t.seq, SenderStateSeq: stateSeq})
+}
 func (v *VerifScheduler) Schedule(limit int) []*TxQueueMeta { return v.s.schedule(limit) }
 func (v *VerifScheduler) Reset()                            { v.s.reset() }
 func (v *VerifScheduler) HandleTxUsed(h hash.Hash)          { v.s.handleTxUsed(h) }
